@@ -115,7 +115,11 @@ def facets(tier):
         [('raw:%s' % x, Raw(x)) for x in ('25:00:00', 'abc')])
     add('Boolean', T('Boolean'), [('true', True), ('false', False), ('raw:maybe', Raw('maybe')), ('raw:yes', Raw('yes')), ('raw:2', Raw('2'))])
     add('Duration', T('Duration'), [('ok', _dt.timedelta(seconds=5))] + [('raw:%s' % x, Raw(x)) for x in ('abc', '1D', 'P1S', 'PT1Sx')])
-    add('Uuid', T('Uuid'), [('ok', universe.values.UUIDS[1][1]), ('raw:abc', Raw('abc')), ('raw:bad-hex', Raw('zzzzzzzz-1234-5678-1234-567812345678'))])
+    add('Uuid', T('Uuid'), [('ok', universe.values.UUIDS[1][1]), ('raw:abc', Raw('abc')), ('raw:bad-hex', Raw('zzzzzzzz-1234-5678-1234-567812345678')),
+                            # forms a lenient UUID constructor reads although they are outside the declared pattern
+                            ('raw:no-hyphens', Raw('12345678123456781234567812345678')), ('raw:braces', Raw('{12345678-1234-5678-1234-567812345678}')),
+                            ('raw:urn', Raw('urn:uuid:12345678-1234-5678-1234-567812345678')), ('raw:moved-hyphens', Raw('1234-5678-1234-5678-1234-5678-1234-5678')),
+                            ('raw:too-short', Raw('12345678-1234-5678-1234-56781234567'))])
     add('ByteArray', T('ByteArray'), [('ok', b'abc'), ('raw:bad-length', Raw('a')), ('raw:bad-chars', Raw('!!!!'))])
     add('ByteArray(hex)', T('ByteArray', encoding='hex'), [('ok', b'abc'), ('raw:odd', Raw('abc')), ('raw:bad-chars', Raw('zz'))])
     # the whole lattice of range constraints: each of ge, gt, le, lt unset or one of two bounds (all 81 combinations,
@@ -127,14 +131,24 @@ def facets(tier):
                 continue
             fid = '%s-lattice(%s)' % (name, ','.join('%s=%s' % (k, b) for k, b in (('ge', ge), ('gt', gt), ('le', le), ('lt', lt)) if b is not None))
             add(fid, ['p', name, a], [('n:%s' % x, mk(x)) for x in probes])
+    # the lattice of string facets: min_len x max_len x pattern (fixed length included), every value around them
+    for mn_, mx_, pat in itertools.product((None, 2), (None, 2, 3), (None, '[A-Z]+')):
+        a = {k: v for k, v in (('min_len', mn_), ('max_len', mx_), ('pattern', pat)) if v is not None}
+        if not a:
+            continue
+        fid = 'Unicode-lattice(%s)' % ','.join('%s=%s' % kv for kv in sorted(a.items()))
+        add(fid, ['p', 'Unicode', a], [('s:%s' % x, x) for x in ('A', 'AB', 'ABC', 'ABCD', 'tr', 't1', 'a', 'abc')] + [('s:empty', '')])
     # nullability x occurrence
     for fid, t in [('Integer()', T('Integer')), ('Integer(nillable=False)', T('Integer', nillable=False)),
                    ('Integer(min_occurs=1)', T('Integer', min_occurs=1)),
                    ('Integer(min_occurs=1,nillable=False)', T('Integer', min_occurs=1, nillable=False)),
                    ('Mandatory(Integer)', ['m', T('Integer')]), ('Mandatory(Unicode)', ['m', T('Unicode')]),
-                   ('Unicode(nillable=False)', T('Unicode', nillable=False)), ('Date(min_occurs=1,nillable=False)', T('Date', min_occurs=1, nillable=False))]:
+                   ('Unicode(nillable=False)', T('Unicode', nillable=False)), ('Date(min_occurs=1,nillable=False)', T('Date', min_occurs=1, nillable=False)),
+                   # object-valued slots
+                   ('Obj()', ['c', 'Q', {}]), ('Obj(nillable=False)', ['c', 'Q', {'nillable': False}]), ('Obj(min_occurs=1)', ['c', 'Q', {'min_occurs': 1}]),
+                   ('Obj(min_occurs=1,nillable=False)', ['c', 'Q', {'min_occurs': 1, 'nillable': False}])]:
         base = validity.base_of(t)[1]
-        ok = {'Integer': 5, 'Unicode': 'x', 'Date': _dt.date(2000, 1, 1)}[base]
+        ok = {'Integer': 5, 'Unicode': 'x', 'Date': _dt.date(2000, 1, 1), 'Q': Obj('Q', q=1, qs='s')}[base]
         vals = [('value', ok), ('absent', Absent), ('nil', Nil)]
         if base == 'Unicode':
             vals.append(('empty', ''))
